@@ -41,6 +41,8 @@ structure Rec where
   expire : Int
   /-- `treasure.expirationTimeChanged` -/
   expFlag : Bool
+  /-- `treasure.contentChanged` -/
+  contFlag : Bool := true
   deriving DecidableEq, Repr, Inhabited
 
 /-- An index: what the client asks for (`IndexType`), and also the name of a beacon pair. -/
@@ -376,7 +378,7 @@ def refreshes (cfg : Cfg) (ps : Slot) (new : Rec) : Bool :=
   | .created => cfg.updRefreshCreated
   | .updated => cfg.updRefreshUpdated
   | .expire => cfg.updRefreshExpireOnFlag && new.expFlag
-  | .value _ => cfg.updRefreshValue
+  | .value _ => cfg.updRefreshValue && new.contFlag
 
 /-- `SaveFunction` for an existing key (`old` → `new`, same treasure object) as seen by pair `ps` -/
 def Pair.update (cfg : Cfg) (ps : Slot) (old new : Rec) (p : Pair) : Pair :=
@@ -433,7 +435,7 @@ def mergeRec (cfg : Cfg) (old : Option Rec) (rq : SetReq) : Rec :=
   match old with
   | none =>
     { key := rq.key, ct := rq.ct, val := (if rq.ct == .void then 0 else rq.val),
-      created := rq.created, updated := rq.updated, expire := rq.expire, expFlag := rq.expire != 0 }
+      created := rq.created, updated := rq.updated, expire := rq.expire, expFlag := rq.expire != 0, contFlag := true }
   | some o =>
     -- `SetContentVoid` on an object that already has non-void content leaves the content alone
     let keep := rq.ct == .void
@@ -443,7 +445,9 @@ def mergeRec (cfg : Cfg) (old : Option Rec) (rq : SetReq) : Rec :=
       created := if rq.created != 0 then rq.created else o.created,
       updated := if rq.updated != 0 then rq.updated else o.updated,
       expire := if rq.expire != 0 then rq.expire else o.expire,
-      expFlag := (cfg.flagsSticky && o.expFlag) || rq.expire != 0 }
+      expFlag := (cfg.flagsSticky && o.expFlag) || rq.expire != 0,
+      -- the setters raise `contentChanged` only when the value really differs
+      contFlag := (cfg.flagsSticky && o.contFlag) || (!keep && (rq.ct != o.ct || rq.val != o.val)) }
 
 structure Query where
   slot : Slot
@@ -507,7 +511,7 @@ def stepInc (cfg : Cfg) (st : St) (k : String) (delta expire : Int) : St :=
 /-- close + summon: every beacon is gone (they live in memory only) and the treasures are fresh
     objects, so their `…Changed` flags are clear -/
 def stepReload (st : St) : St :=
-  { store := st.store.map (fun r => { r with expFlag := false }), pairs := fun _ => {} }
+  { store := st.store.map (fun r => { r with expFlag := false, contFlag := false }), pairs := fun _ => {} }
 
 /-- the build step of a read -/
 def stepBuild (cfg : Cfg) (st : St) (q : Query) : St :=
